@@ -95,8 +95,22 @@ Definition judge_c06 (g : cfg) (u : unit) (o : obs) : list N * unit :=
       else if negb (forallb (fun q => memb (k_pid q) (store_ids pre)) resent) then [20]
       else []
     else [] in
-  (* stored entries always hold their identifier *)
-  let v5 := if forallb (fun id => used post id) (store_ids post) then [] else [21] in
+  (* stored entries always hold their identifier; the store keeps insertion order: surviving
+     entries stay in their relative order and new entries go to the end *)
+  let key := fun q : pkt => (k_pid q * 16 + k_type q) in
+  let kpre := map key (c_store pre) in
+  let kpost := map key (c_store post) in
+  let kept_pre := filter (fun k => memb k kpost) kpre in
+  let kept_post := filter (fun k => memb k kpre) kpost in
+  let tail_new := skipn (length kept_post) kpost in
+  let v5 := if negb (forallb (fun id => used post id) (store_ids post)) then [21]
+            else match ob_op o with
+                 | ORestorePackets _ => []
+                 | _ => if negb (nlist_eqb kept_pre kept_post) then [22]
+                        else if negb (nlist_eqb (firstn (length kept_post) kpost) kept_post) then [23]
+                        else if existsb (fun k => memb k kpre) tail_new then [24]
+                        else []
+                 end in
   (match v1, v2, v3, v4, v5 with
    | _ :: _, _, _, _, _ => v1
    | [], _ :: _, _, _, _ => v2
